@@ -68,7 +68,7 @@ def obligations(tier, seed):
     thorough = tier == "thorough"
     for k in (0, 1, 2, 3):
         for layout in ("shared1", "private", "shared2"):
-            for rule in ((0, 5) if not thorough else (0, 1, 2, 3, 5, 6, 7, 8)):
+            for rule in ((0, 4, 5) if not thorough else (0, 1, 2, 3, 4, 5, 6, 7, 8)):
                 for auto1 in (False, True):
                     spec = {"tasks": [{"w": "$w0"}, {"w": "$w1", "auto": auto1}, {"w": "$w2"}], "edges": [[0, 1, k], [0, 2, 0]],
                             "teams": profiles.layout_workers(layout, 3), "run": {"max_time": 14, "abs": ["$pa0", "$pa1"], "flag": False, "rule": rule}}
